@@ -1,6 +1,6 @@
 (* C20 — metrics equal what actually happened. Statements only; proofs in Proofs/HubProofs2.v
-   over the hub transition system (every schedule, both transports, crashes). *)
-From Mercure Require Import Base Hub HubProofs2.
+   and Proofs/HubProofs9.v over the hub transition system (every schedule, both transports, crashes). *)
+From Mercure Require Import Base Hub HubProofs2 HubProofs9.
 
 (* the connected-subscribers gauge is, in every reachable state, the number of handlers between the end of a
    successful registration and the end of shutdown (refused or failed requests count for nothing) *)
@@ -22,9 +22,54 @@ Theorem C20_counters_step :
 Proof. exact counters_step. Qed.
 Print Assumptions C20_counters_step.
 
+(* Globally, between two restarts (the counters are per process): from ANY state - the start of the process, or the
+   state just after a restart - and along any restart-free schedule, subscribers_total grows by exactly the number of
+   streams accepted meanwhile (handlers that completed registration, whatever became of them since; a refused
+   registration is not one) and updates_total by exactly the number of publishes acknowledged meanwhile. *)
+Theorem C20_counters_between_restarts :
+  forall mt cap tracking w sched, ~ In ACrash sched ->
+  let st := w_st w in let st' := w_st (wrun mt cap tracking w sched) in
+  (Z.of_N (h_subs_total st') - Z.of_N (h_subs_total st) = atotal (phases st') - atotal (phases st))%Z /\
+  (Z.of_N (h_updates_total st') - Z.of_N (h_updates_total st) =
+   Z.of_nat (length (h_acked st')) - Z.of_nat (length (h_acked st)))%Z.
+Proof. exact counters_since. Qed.
+Print Assumptions C20_counters_between_restarts.
+
+(* from the start of the process the counters ARE those numbers ... *)
+Theorem C20_counters_global :
+  forall mt cap tracking persistent size reqs pubs sched, ~ In ACrash sched ->
+  let st := w_st (wrun mt cap tracking (winit persistent size reqs pubs) sched) in
+  Z.of_N (h_subs_total st) = atotal (phases st) /\ h_updates_total st = N.of_nat (length (h_acked st)).
+Proof. exact counters_global. Qed.
+Print Assumptions C20_counters_global.
+
+(* ... every open stream is an accepted one ... *)
+Theorem C20_gauge_le_total :
+  forall mt cap tracking persistent size reqs pubs sched, ~ In ACrash sched ->
+  let st := w_st (wrun mt cap tracking (winit persistent size reqs pubs) sched) in
+  (0 <= h_gauge st <= Z.of_N (h_subs_total st))%Z.
+Proof. exact gauge_le_total. Qed.
+Print Assumptions C20_gauge_le_total.
+
+(* ... and a restart sets all three to zero *)
+Theorem C20_restart_resets :
+  forall mt cap tracking w,
+  let st := w_st (wstep mt cap tracking w ACrash) in h_subs_total st = 0 /\ h_updates_total st = 0 /\ h_gauge st = 0%Z.
+Proof. exact counters_restart. Qed.
+Print Assumptions C20_restart_resets.
+
 Example C20_nonvacuous :
   let w := wrun (fun _ _ => true) 2 false (winit false 0 [NoReq; NoReq] [[1; 2]])
              [ASub 0 true; ASub 0 true; ASub 0 true; ASub 0 true; ASub 0 true; APubCheck 0; APublish 0 true;
               ARecv 0; ALeave 0; ASub 0 true; APubCheck 0; APublish 0 true; AClose; ASub 1 true; ASub 1 true] in
   (h_gauge (w_st w), h_subs_total (w_st w), h_updates_total (w_st w)) = (1%Z, 1, 2).
+Proof. vm_compute. reflexivity. Qed.
+
+(* the global statement on a history with a refused registration (subscriber 1 arrives after Close) and a refused publish *)
+Example C20_global_nonvacuous :
+  let w := wrun (fun _ _ => true) 2 false (winit false 0 [NoReq; NoReq] [[1; 2]])
+             [ASub 0 true; ASub 0 true; ASub 0 true; ASub 0 true; ASub 0 true; APubCheck 0; APublish 0 true;
+              ASub 1 true; AClose; AClose; AClose; ASub 1 true; APubCheck 0] in
+  (atotal (phases (w_st w)), h_subs_total (w_st w), length (h_acked (w_st w)), h_updates_total (w_st w),
+   map hs_phase (h_subs (w_st w))) = (1%Z, 1, 1%nat, 1, [PLive 0; PRefused]).
 Proof. vm_compute. reflexivity. Qed.
